@@ -130,6 +130,9 @@ type run struct {
 	ghostSig        map[*value]ghostSig // JWS contract stubs: signature object -> (signing key, signed payload)
 	ghostParsed     value               // what the parser stub yields
 	ghostFlags      map[string]value    // named results of contract stubs (e.g. Validate outcome)
+	ghostContent    map[*value]*smt.Term // document object -> content token (argument of the MARSHAL function)
+	ufApps          map[string][][2]*smt.Term // uninterpreted function -> (argument, result) pairs, for injectivity instances
+	strIntern       map[string]int64
 }
 
 type knownClass struct {
